@@ -35,6 +35,7 @@ def run(ctx):
     monitor_rows(ctx, allrows, lambda r, m: "mon:" + m,
                  lambda r, m: ({"vaa": {k: r[k] for k in r if k not in ("mon",)}, "monitor": m} if r.get("k") == "c04" else
                               {"concurrent_callers": r.get("workers"), "calls": r.get("calls"), "monitor": m} if r.get("k") == "conc" else
+                              {"monitor": m, "test": "TestVerifC04 (long wire forms)", "seed": ctx.seed} if r.get("k") == "c04long" else
                               {"keccak_input": r["in"], "go_output": r["out"], "monitor": m}))
     ctx.cov["concurrent_digest_calls"] = sum(r.get("calls", 0) for r in allrows if r.get("k") == "conc")
     # model vs implementation: body and marshal computed by the Gallina model on the same field values, and the digest computed by the
